@@ -816,6 +816,22 @@ def _(p, i, r):
     return i
 
 
+@op("V51b", "assign_in_compound_literal_in_control", "ASSIGN_IN_CONTROL", ("ctrl",))
+def _(p, i, r):
+    """the assignment sits between the braces of a compound literal inside the condition"""
+    l = p.lines[i]
+    js = [j for j, (t, c) in enumerate(l.segs) if t == "(" and c == "punct"]
+    if not js or l.meta.get("kw") == "else":
+        return None
+    j = js[0]
+    l.segs[j + 1:] = [("ft_sum", "id:func"), ("(", "punct"), ("(", "punct"), ("int", "type"), SP, ("[", "punct"), ("2", "const:int"), ("]", "punct"),
+                      (")", "punct:cast"), ("{", "punct"), ("zz", "id:var"), SP, ("=", "op:assign"), SP, ("2", "const:int"), (",", "op:comma"), SP,
+                      ("2", "const:int"), ("}", "punct"), (")", "punct"), SP, ("<", "op:bin"), SP, ("10", "const:int"), (")", "punct")]
+    if not _fits(l):
+        return None
+    return i
+
+
 @op("V52", "two_instructions", "TOO_MANY_INSTR", ("stmt",))
 def _(p, i, r):
     l = p.lines[i]
